@@ -803,6 +803,12 @@ func genRelay(t *rapid.T) RelayCase {
 		var dummy Case
 		c.Mut, c.Body = mutateBytes(t, sd.Data, smallSeeds[group], &dummy)
 	}
+	c.BigBuf = rapid.IntRange(0, 2).Draw(t, "bigbuf") == 0
+	if rapid.Bool().Draw(t, "padded") && json.Valid(c.Body) && len(c.Body) < 64<<10 && len(c.Body) > 0 && c.Body[0] == '{' {
+		// a completion of several KB to a few tens of KB (a long answer): padded with JSON whitespace
+		c.Body = append(append([]byte{}, c.Body...), bytes.Repeat([]byte(" "), rapid.SampledFrom([]int{3000, 6000, 9000, 20000, 40000}).Draw(t, "pad"))...)
+		c.Mut += "+padded"
+	}
 	if n := len(c.Body); n > 4 && n <= 64<<10 {
 		switch rapid.IntRange(0, 3).Draw(t, "cuts") {
 		case 0:
@@ -814,12 +820,6 @@ func genRelay(t *rapid.T) RelayCase {
 				c.Cuts = append(c.Cuts, b)
 			}
 		}
-	}
-	c.BigBuf = rapid.IntRange(0, 2).Draw(t, "bigbuf") == 0
-	if c.BigBuf && rapid.Bool().Draw(t, "padded") && json.Valid(c.Body) && len(c.Body) < 64<<10 && len(c.Body) > 0 && c.Body[0] == '{' {
-		// a completion of a few tens of KB in one piece (a long answer): padded with JSON whitespace
-		c.Body = append(append([]byte{}, c.Body...), bytes.Repeat([]byte(" "), rapid.SampledFrom([]int{9000, 20000, 40000}).Draw(t, "pad"))...)
-		c.Mut += "+padded"
 	}
 	return c
 }
